@@ -103,9 +103,73 @@ def opConvfields : List V → Option V
       some (ofList ofChars (convertFields sepP fs i n))
   | _ => none
 
+/-! extension: header helper, text-mode reading, the command line tool, several files -/
+
+/-- `headercols <sepC> <header>` → `[n_col idx]` of `parse_pin_header_columns` -/
+def opHeadercols : List V → Option V
+  | [c, h] => do
+      let sepC ← sepChar? c
+      let header ← chars? h
+      some (ofExcept (fun p => list [ofNat p.1, ofNat p.2]) (parseHeaderCols sepC header))
+  | _ => none
+
+/-- `univnl <raw>` → the characters text-mode reading hands over -/
+def opUnivnl : List V → Option V
+  | [t] => do
+      let raw ← chars? t
+      some (ofChars (univNl raw))
+  | _ => none
+
+def optSepChar? : V → Option (Option Char)
+  | atom "none" => some none
+  | list [x] => (sepChar? x).map some
+  | _ => none
+
+/-- `toolmain <[sepC]|none> <[sepP]|none> <raw input> <old output>` → content of the output file -/
+def opToolmain : List V → Option V
+  | [c, p, t, o] => do
+      let sepC ← optSepChar? c
+      let sepP ← optChars? p
+      let raw ← chars? t
+      let old ← chars? o
+      some (ofExcept ofChars (toolMain sepC sepP raw old))
+  | _ => none
+
+/-- `verifyfile <raw>` → stored characters after the verify step -/
+def opVerifyfile : List V → Option V
+  | [t] => do
+      let raw ← chars? t
+      some (ofExcept ofChars (verifyStepFile raw))
+  | _ => none
+
+/-- `verifyfiles <verify_pin> [raw …]` → stored characters of all files after the verify step -/
+def opVerifyfiles : List V → Option V
+  | [b, fs] => do
+      let on ← toBool? b
+      let files ← toList? chars? fs
+      some (ofExcept (ofList ofChars) (verifyFiles on files))
+  | _ => none
+
+/-- `spec-C19-file <sepC> <sepP> <terminator> <doc>` →
+`[wf noCR <terminator is one of the three> <stored characters> <PIN text> firstTsvRowOk <expected output text>
+<stored characters as read in text mode>]` -/
+def opSpecC19File : List V → Option V
+  | [c, p, t, d] => do
+      let sepC ← sepChar? c
+      let sepP ← chars? p
+      let term ← chars? t
+      let doc ← doc? d
+      some (list [ofBool (doc.wf sepC), ofBool doc.noCR, ofBool (lineTerminators.contains term),
+                  ofChars (renderPinT sepC term doc), ofChars (renderPin sepC doc),
+                  ofBool (firstTsvRowOk sepC sepP doc), ofChars (renderTsv sepC sepP doc),
+                  ofChars (univNl (renderPinT sepC term doc))])
+  | _ => none
+
 def pinTsvOps : List (String × (List V → Option V)) :=
   [("pin2tsv", opPin2tsv), ("validtsv", opValidtsv), ("validspec", opValidspec),
    ("verifystep", opVerifystep), ("spec-C19", opSpecC19), ("parsetable", opParsetable),
-   ("pyspaces", opPyspaces), ("convfields", opConvfields)]
+   ("pyspaces", opPyspaces), ("convfields", opConvfields),
+   ("headercols", opHeadercols), ("univnl", opUnivnl), ("toolmain", opToolmain),
+   ("verifyfile", opVerifyfile), ("verifyfiles", opVerifyfiles), ("spec-C19-file", opSpecC19File)]
 
 end Mk.Ops
